@@ -220,9 +220,10 @@ class ListGen:
                     self.L.append(f"{ind}mon.write({nm}[-1])")
                     self.L.append(f"{ind}{nm}.remove({v})")
                 elif info["vals"]:
-                    self.L.append(f"{ind}tmp_e = {nm}[0]")
-                    self.L.append(f"{ind}{nm}.append(tmp_e)")
-                    self.L.append(f"{ind}{nm}.remove(tmp_e)")
+                    # (one temporary per list: a name shared by lists of different element types would be re-typed - known finding)
+                    self.L.append(f"{ind}tmp_{nm} = {nm}[0]")
+                    self.L.append(f"{ind}{nm}.append(tmp_{nm})")
+                    self.L.append(f"{ind}{nm}.remove(tmp_{nm})")
                 self.features.add("loop-append-remove")
             if "list-grow" in self.hz and info["t"] == "int":
                 self.L.append(f"{ind}{nm}.append(count)")
